@@ -104,6 +104,8 @@ func c11Payloads(quick bool) []string {
 			}
 		}
 	}
+	/* And what a formatter would take for its own. */
+	ps = append(ps, "date +%s", "100%", "%d%%", "%!s(MISSING)", "printf '%s\\n' \"$x\"")
 	return ps
 }
 
